@@ -29,6 +29,7 @@ import (
 	"github.com/cloudwego/eino/compose"
 	"github.com/cloudwego/eino/internal/vkit"
 	rapid "github.com/cloudwego/eino/internal/vrapid"
+	"github.com/cloudwego/eino/schema"
 )
 
 type Op20 struct {
@@ -210,11 +211,33 @@ func compileOpts(op Op20) []compose.GraphCompileOption {
 	return opts
 }
 
+// isHandlerOpt: the node option attaches a state handler (any of the four kinds).
+func isHandlerOpt(o string) bool {
+	switch o {
+	case "prehandler", "posthandler", "streamprehandler", "streamposthandler", "bothhandlers":
+		return true
+	}
+	return false
+}
+
 func nodeOpts20(op Op20, state bool) []compose.GraphAddNodeOpt {
 	var opts []compose.GraphAddNodeOpt
 	switch op.Opt {
 	case "prehandler":
 		opts = append(opts, compose.WithStatePreHandler(func(ctx context.Context, in string, s *c20State) (string, error) { return in, nil }))
+	case "posthandler":
+		opts = append(opts, compose.WithStatePostHandler(func(ctx context.Context, out string, s *c20State) (string, error) { return out, nil }))
+	case "streamprehandler":
+		opts = append(opts, compose.WithStreamStatePreHandler(func(ctx context.Context, in *schema.StreamReader[string], s *c20State) (*schema.StreamReader[string], error) {
+			return in, nil
+		}))
+	case "streamposthandler":
+		opts = append(opts, compose.WithStreamStatePostHandler(func(ctx context.Context, out *schema.StreamReader[string], s *c20State) (*schema.StreamReader[string], error) {
+			return out, nil
+		}))
+	case "bothhandlers":
+		opts = append(opts, compose.WithStatePreHandler(func(ctx context.Context, in string, s *c20State) (string, error) { return in, nil }),
+			compose.WithStatePostHandler(func(ctx context.Context, out string, s *c20State) (string, error) { return out, nil }))
 	case "nodekey":
 		opts = append(opts, compose.WithNodeKey("k_"+op.A))
 	}
@@ -248,7 +271,7 @@ func runGraph20(c CaseC20) *result20 {
 				opts := nodeOpts20(op, c.State)
 				switch op.Kind {
 				case "pass":
-					if op.Opt == "prehandler" {
+					if isHandlerOpt(op.Opt) {
 						opts = nil // a pass-through pre-handler must be typed any; keep this kind simple
 					}
 					return g.AddPassthroughNode(op.A, opts...)
@@ -266,7 +289,7 @@ func runGraph20(c CaseC20) *result20 {
 					viol("reserved node key")
 				case nodes[op.A] != "":
 					viol("duplicate node key")
-				case op.Opt == "prehandler" && !c.State && op.Kind != "pass":
+				case isHandlerOpt(op.Opt) && !c.State && op.Kind != "pass":
 					viol("state handler without state")
 				case op.Opt == "nodekey":
 					viol("node key option outside chain")
@@ -463,7 +486,7 @@ func runChain20(c CaseC20) *result20 {
 				opts := nodeOpts20(op, c.State)
 				switch op.Kind {
 				case "pass":
-					if op.Opt == "prehandler" {
+					if isHandlerOpt(op.Opt) {
 						opts = nil
 					}
 					ch.AppendPassthrough(opts...)
@@ -481,7 +504,7 @@ func runChain20(c CaseC20) *result20 {
 			res.calls = append(res.calls, cl)
 			res.isAdd = append(res.isAdd, false) // chain errors are deferred to Compile
 			if !compiledOK {
-				if op.Opt == "prehandler" && !c.State && op.Kind != "pass" {
+				if isHandlerOpt(op.Opt) && !c.State && op.Kind != "pass" {
 					viol("state handler without state")
 				}
 				if op.Opt == "nodekey" {
@@ -664,7 +687,7 @@ func runWorkflow20(c CaseC20) *result20 {
 					viol("reserved node key")
 				case kinds[op.A] != "":
 					viol("duplicate node key")
-				case op.Opt == "prehandler" && !c.State:
+				case isHandlerOpt(op.Opt) && !c.State:
 					viol("state handler without state")
 				case op.Opt == "nodekey":
 					viol("node key option outside chain")
@@ -1046,7 +1069,7 @@ func genC20(t *rapid.T) CaseC20 {
 	}
 	opt := func() string {
 		if rapid.IntRange(0, 7).Draw(t, "hasOpt") == 0 {
-			return []string{"prehandler", "nodekey"}[rapid.IntRange(0, 1).Draw(t, "opt")]
+			return []string{"prehandler", "nodekey", "posthandler", "streamprehandler", "streamposthandler", "bothhandlers"}[rapid.IntRange(0, 5).Draw(t, "opt")]
 		}
 		return ""
 	}
